@@ -619,7 +619,13 @@ func c02clip(b []byte) string {
 // ---------------------------------------------------------------- E1: record round trip
 
 func c02checkRT(c c02case) (res c02result) {
-	res = c02checkRT0(c)
+	// building the records and reading the re-read ones back (obiseq constructors / accessors, a nil record in
+	// the slice a parser returns ...) are calls into the tree under test as well: a panic or a log.Fatal there is
+	// an outcome of the case, not the end of the shard
+	if bad, msg := c02try(func() { res = c02checkRT0(c) }); bad {
+		res = c02result{key: "records/" + c02fatalClass(msg) + "-outside-format-and-parse",
+			desc: fmt.Sprintf("[%s/%s level=%q] building the records or inspecting the re-read ones dies: %s", c.Fmt, c.Parser, c.Level, msg)}
+	}
 	if res.key != "" && c.Level == "file" {
 		// a defect of the file-level path never hides behind a chunk-level key, one of the reader behind the
 		// standard input (kseq, C code) never behind a key of the Go readers
@@ -875,6 +881,14 @@ func c02hasBigInt(v interface{}) bool {
 // ---------------------------------------------------------------- E2: accepted title lines
 
 func c02checkTitle(c c02case) (res c02result) {
+	if bad, msg := c02try(func() { res = c02checkTitle0(c) }); bad {
+		res = c02result{key: "title:records/" + c02fatalClass(msg) + "-outside-format-and-parse",
+			desc: fmt.Sprintf("title %q: inspecting the parsed record dies: %s", c.Title, msg)}
+	}
+	return
+}
+
+func c02checkTitle0(c c02case) (res c02result) {
 	c02setShift(33)
 	cls := c02strclass([]string{c.Title})
 	c.Fmt = "fasta"
@@ -1366,6 +1380,9 @@ func TestVerifC02(t *testing.T) {
 				if !mine() {
 					continue
 				}
+				if strings.HasPrefix(pre+s, "{") {
+					r.Count("title.cases-opening-a-json-object", 1)
+				}
 				eval(c02case{Kind: "title", Parser: p, Title: pre + s})
 			}
 		})
@@ -1374,7 +1391,7 @@ func TestVerifC02(t *testing.T) {
 	r.RequireNonVacuous("rt.string-sweep.with-quote-backslash-or-brace")
 	r.RequireNonVacuous("rt.structural.clamp-cases")
 	r.RequireNonVacuous("rt.structural.folded-sequences")
-	r.RequireNonVacuous("title.accepted-with-json-annotations")
+	r.RequireNonVacuous("title.cases-opening-a-json-object") // cases generated; how many of them the parser accepts is the tree's answer
 	r.RequireNonVacuous("rt.file-level.fastq-with-in/out-shift-options-different")
 	r.RequireNonVacuous("rt.file-level.writer-chooses-format")
 	r.RequireNonVacuous("rt.file-level.reader-guesses-format")
